@@ -165,3 +165,42 @@ func VerifC18_UnTarIndex() {
 	}
 	check()
 }
+
+// VerifC18_Sequences: hostile element *sequences* - after the root entry, every step is the
+// solver's pick of: a file, a sub-directory entry, a symlink, or a goodbye (so goodbyes may
+// outnumber open directories, directories may be left open, entries may follow the root's
+// goodbye).  Names and targets are symbolic.
+func VerifC18_Sequences() {
+	steps, max := 3, 2
+	if vTier() > 0 {
+		steps, max = 4, 3
+	}
+	a := newVerifArchive()
+	a.entry(os.ModeDir | 0755)
+	n := 1 + vChoose("steps", steps)
+	for k := 0; k < n; k++ {
+		switch vChoose("element", 4) {
+		case 0:
+			a.filename(verifSymName("name", max))
+			a.entry(0644)
+			a.payload([]byte("x"))
+		case 1:
+			a.filename(verifSymName("dirname", max))
+			a.entry(os.ModeDir | 0755)
+		case 2:
+			a.filename(verifSymName("linkname", max))
+			a.entry(os.ModeSymlink | 0777)
+			a.symlink(verifSymName("target", max))
+		case 3:
+			a.goodbye()
+		}
+	}
+	_, dest, check := verifSandbox()
+	fs := NewLocalFS(dest, LocalFSOptions{})
+	err := UnTar(context.Background(), bytes.NewReader(a.buf.Bytes()), fs)
+	vCover("untar-returned")
+	if err == nil {
+		vCover("untar-succeeded")
+	}
+	check()
+}
